@@ -1421,17 +1421,17 @@ fn main() {
     }
     let mut rep = run_cases(&ctx, "main", n_main, main_case(thorough));
     rep.merge(run_cases(&ctx, "jsonlong", n_long, jsonlong_case));
-    rep.merge(run_cases(&ctx, "interleave", ctx.scale(200, 4000) as u64, |case, rng, rep| {
+    rep.merge(run_cases(&ctx, "interleave", ctx.scale(200, 3000) as u64, |case, rng, rep| {
         run_plan(case, rng, rep, "interleave", thorough)
     }));
-    rep.merge(run_cases(&ctx, "collide", ctx.scale(200, 4000) as u64, |case, rng, rep| {
+    rep.merge(run_cases(&ctx, "collide", ctx.scale(200, 3000) as u64, |case, rng, rep| {
         run_plan(case, rng, rep, "collide", thorough)
     }));
-    rep.merge(run_cases(&ctx, "arena", ctx.scale(100, 2000) as u64, arena_case));
+    rep.merge(run_cases(&ctx, "arena", ctx.scale(100, 1500) as u64, arena_case));
     simple_finish(
         &ctx,
         rep,
-        "case = one generated segment (plans: small all-types, df-boundary, big sparse, heavy tf/positions, long terms, json long tokens) written by the real IndexWriter and read back per field; an evaluation = one (segment, field) read-back: term dictionary (num_terms, stream order, keys vs public Term constructors, TermInfo), total_num_tokens, field norms, and for the selected terms doc_freq + postings under Basic/WithFreqs/WithFreqsAndPositions read by scan, by seek/advance programs, by the block cursor (scan, seek, rank, reset). Non-trivial = the field has a posting list of >= 128 documents or records positions. Distinct = field configuration x df class x tf class x log2(#terms) x log2(#docs).",
+        "case = one generated segment (plans: small all-types, df-boundary, big sparse, heavy tf/positions, long terms, json long tokens, interleave = documents of 1..600 values added in an order not grouped by field, collide = distinct terms of equal length whose in-memory keys have the same 32-bit hash and differ only in a window placed relative to the 16-byte chunks of the key comparison) written by the real IndexWriter and read back per field; an evaluation = one (segment, field) read-back: term dictionary (num_terms, stream order, keys vs public Term constructors, TermInfo), total_num_tokens, field norms, and for the selected terms doc_freq + postings under Basic/WithFreqs/WithFreqsAndPositions read by scan, by seek/advance programs, by the block cursor (scan, seek, rank, reset). Non-trivial = the field has a posting list of >= 128 documents or records positions. Distinct = field configuration x df class x tf class x log2(#terms) x log2(#docs); for collide also field kind x window class x place of the differing bytes. Stream arena: the indexing-time term table alone (tantivy_stacker::ArenaHashMap) fed with such equal-hash keys, compared with a BTreeMap (previous value handed to the updater, len, iter, get).",
         ctx.scale(50, 800),
         &[
             "text is generated as words joined by single spaces; the default/raw/whitespace tokenizers are modelled by their documented rules (split, RemoveLongFilter(40), MAX_TOKEN_LEN; a JSON text token must also fit the 65535-byte in-memory key after field id + path id + type byte, i.e. <= 65526 bytes, else it is dropped)",
@@ -1439,6 +1439,8 @@ fn main() {
             "term_freq is only compared when the requested option has frequencies; for terms recorded without frequencies (Basic fields, typed JSON values) the documented value 1 is expected",
             "positions() is not called on typed JSON terms of a field with positions (no positions exist; tantivy's merger avoids the call as well)",
             "doc-id gaps above ~21 bits cannot be produced through the public indexing path (they need > 2^21 documents in one segment)",
+            "collide/arena: the generator re-implements murmurhash2 (seed of the murmurhash32 crate, checked against its reference vectors at start) and assumes the in-memory key layout field id (4 bytes BE) ++ value bytes, for JSON text terms field id ++ path id (4 bytes BE, numbered in order of first appearance) ++ 's' ++ token; this only steers the input - were it wrong the planted terms would not collide and the stream would be an ordinary small-segment workload (the arena stream does not depend on the layout)",
+            "interleave: TantivyDocument keeps values in the order in which they were added, and the values of one field are indexed in that order (position of a value = end of the previous value of the same field + 1)",
         ],
     );
 }
